@@ -153,6 +153,17 @@ func Note(text string) {
 // HeldBy returns the mutexes task tid currently holds.
 func (s *Sched) HeldBy(tid int) []*Mutex { return s.tasks[tid].held }
 
+// Waiting returns, for every task parked in Lock(), its id and the mutex it wants.
+func (s *Sched) Waiting() (tids []int, wants []*Mutex) {
+	for _, t := range s.tasks {
+		if !t.done && t.want != nil {
+			tids = append(tids, t.id)
+			wants = append(wants, t.want)
+		}
+	}
+	return
+}
+
 func (s *Sched) park(t *task) {
 	s.yield <- struct{}{}
 	<-t.resume
